@@ -21,3 +21,6 @@ def check(ctx, env):
     K.r13_45_build(ctx, prog)
     K.r13_6_packet_immutable(ctx, prog)
     R.r5_3_retransmit(ctx, prog, rule="R13.6")
+    if env.tier == "thorough":
+        from .. import witness
+        witness.run(ctx, "R13.6", ["W1"])
